@@ -102,6 +102,11 @@ func (f *Dolist) Call(s *slip.Scope, args slip.List, depth int) slip.Object {
 							break
 						}
 					}
+					if len(args) <= i {
+						// Not a tag of this body, it is for an outer
+						// tagbody.
+						return tr
+					}
 				}
 			}
 		}
